@@ -161,6 +161,9 @@ func init() {
 	mut("C26", "revert-fix-serial-wait", "internal/workers/serial_workers.go", "\t<-j.done\n", "", "serial Wait returns before Done")
 	mut("C16", "revert-fix-serial-wait", "internal/workers/serial_workers.go", "\t<-j.done\n", "", "serial Wait returns before Done")
 	mut("C22", "revert-fix-response-budget", "internal/validitywindow/handler.go", "\t\tif len(blocks) > 0 && responseBytes+len(blockBytes) > maxResponseBytes {\n\t\t\treturn blocks, nil\n\t\t}\n", "", "no byte budget on block-fetch answers")
+	mut("C18", "revert-fix-compact-nil-limit", "internal/pebble/pebble.go", "\tif limit == nil {\n\t\t// The database.Database spec", "\tif limit == nil && start != nil {\n\t\t// The database.Database spec", "Compact(nil, nil) forwards the nil limit")
+	mut("C18", "revert-fix-start-block-notified", "snow/chain_index.go", "\tif targetInputBlock.GetHeight() > outputBlock.GetHeight() {\n\t\tif err := event.NotifyAll[A](ctx, acceptedBlock, v.acceptedSubs...); err != nil {", "\tif targetInputBlock.GetHeight() > outputBlock.GetHeight() && v.ready {\n\t\tif err := event.NotifyAll[A](ctx, acceptedBlock, v.acceptedSubs...); err != nil {", "start block not delivered at start-up (ready is false then)")
+	mut("C26", "revert-fix-queued-job-released", "internal/workers/parallel_workers.go", "\t\t\t\tclose(j.completed)\n\t\t\t\tj.result <- ErrShutdown", "\t\t\t\tj.result <- ErrShutdown", "completion callback of a queued job never runs")
 	mut("C23", "revert-fix-front-order", mp, "\t\t\titem = items[len(items)-1-i]", "\t\t\titem = items[i]", "restored block reversed")
 	mut("C23", "revert-fix-prefetched-after-given", mp, "\t\tm.nextStreamFetched = false\n\t}\n\tm.add(restorable, true)\n\tm.streamLock.Unlock()", "\t\tm.nextStreamFetched = false\n\t}\n\tm.streamLock.Unlock()", "given-back items dropped / wrong order")
 	mut("C23", "revert-fix-lock-order", mp, "\tm.streamLock.Lock()\n\n\tm.mu.Lock()\n\tdefer m.mu.Unlock()\n\n\tm.streamedItems", "\tm.mu.Lock()\n\tdefer m.mu.Unlock()\n\n\tm.streamLock.Lock()\n\tm.streamedItems", "StartStreaming waits for the stream lock holding mu")
